@@ -248,6 +248,13 @@ def check(an: Analysis) -> None:
         w = gs.must_pass(lambda n: n in ent, exits=("exit-return",), skip_edge=normal_only)
         if w is not None:
             ob.fail(saenter, ent[0].ast, "a normal path through ScopeContext.__aenter__ does not enter the task group", CFG.show_path(w))
+        # the scope's own group must be current while its disposables are being entered: what they spawn belongs to this scope
+        den = [n for n in gs.nodes if n.kind == "await" and isinstance(n.ast.value, ast.Call) and an.callee(saenter, n.ast.value) == c02.D_ENTER]  # type: ignore[union-attr]
+        if den:
+            ob.inst(saenter, den[0].ast, "disposables entered under the scope's group")
+            w = gs.search([gs.entry], lambda n: n in den, skip_node=lambda n: n in ent)
+            if w is not None:
+                ob.fail(saenter, den[0].ast, "the disposables are entered before the scope's task group: a task a disposable spawns while entering lands in the enclosing group (or detached) and is neither joined nor cancelled with this scope", CFG.show_path(w))
 
 
     # ------------------------------------------------------------------ C06.9 the group variable is restored on every exit path (a later spawn lands in the enclosing group / detached)
